@@ -677,7 +677,7 @@ pub fn gen_schedule(rng: &mut Rng, hist: &[Event], p: &SchedParams) -> Schedule 
   let mut interrupted_since_device_event = true;   // never two interruptions without a device event in between; none before the first
   let mut tablet_state = false;
   while i < hist.len() {
-    let n = match rng.below(10) { 0..=3 => 1, 4..=7 => rng.range(2, 3), _ => rng.range(4, 8) };
+    let n = match rng.below(20) { 0..=7 => 1, 8..=15 => rng.range(2, 3), 16..=18 => rng.range(4, 8), _ => rng.range(9, 24) };
     let n = std::cmp::min(n, hist.len() - i);
     let mut kb: Vec<KItem> = hist[i..i + n].iter().map(|e| KItem::Ev(e.clone())).collect();
     i += n;
